@@ -397,3 +397,20 @@ Proof.
   destruct (negb (formal_single r0)); [inversion H|]. rewrite E in H. cbn [option_map] in H.
   destruct (new_record_spec _ _ _ _ _ _ _ _ I H) as [A [B [C [_ D]]]]. auto.
 Qed.
+
+Lemma doc_unified_coh : forall ft dd nd, doc_unified ft dd = OK nd -> DCoh nd.
+Proof.
+  intros ft dd nd H. unfold doc_unified in H.
+  destruct (add_namespaces nsm_init _) as [m0|]; [|discriminate].
+  destruct (unified_records ft (dmain dd)) as [urecs|e|]; try discriminate.
+  destruct (add_records None ft _ urecs) as [nmain [y|e|]] eqn:EA; try discriminate.
+  eapply unify_bundles_coh; [|exact H]. apply DCoh_main.
+  eapply add_records_coherent; [|exact EA]. apply Coherent_empty.
+Qed.
+
+Lemma graph_to_prov_coh : forall ft g nd, graph_to_prov ft g = OK nd -> DCoh nd /\ dbundles nd = [].
+Proof.
+  intros ft g nd H. unfold graph_to_prov in H.
+  destruct (add_records None ft (bundle_init None) _) as [b [y|e|]] eqn:EA; inversion H; subst.
+  split; [|reflexivity]. apply DCoh_main. eapply add_records_coherent; [apply Coherent_init | exact EA].
+Qed.
